@@ -78,10 +78,18 @@ def sq(v):
     return tot
 
 
-def log_u(c, u):
+def log_u(c, u, link=False):
     """log of a uniform draw as the samplers compute it."""
     if isinstance(u, SymReal):
-        return u.log()
+        l = u.log()
+        if link and isinstance(l, SymReal) and not getattr(c, 'concrete', False):
+            # link the change of variable to EXP, so that an implementation that compares u with exp(alpha) instead of log u with alpha
+            # is decided as well (pairwise monotonicity of EXP applications is a static axiom of the engine)
+            key = ('logu-link', l.t.get_id())
+            if key not in c._pos_cache:
+                c._pos_cache[key] = (True, l.t)
+                c._add_def(u.t == core.EXP(l.t), cheap=True)
+        return l
     u = float(u)
     return math.log(u) if u > 0 else float('-inf')
 
